@@ -1,4 +1,5 @@
 """Registry: property id -> how its correspondence streams and direct oracle are run."""
+import fractions
 import collections, math, os, random, struct, sys, time
 
 sys.path.insert(0, os.path.dirname(os.path.abspath(__file__)))
@@ -128,7 +129,8 @@ def run_c10(ctx):
     for n in range(-lim, lim + 1):
         check_int(n)
     ks = list(range(1, 300)) + ([511, 512, 1023, 1024, 2047, 2048, 4095, 4096, 8191, 8192, 16383, 16384]
-                                if tier == 'quick' else list(range(300, 16385, 1)))
+                                if tier == 'quick' else list(range(300, 2049)) + list(range(2049, 16385, 37)) +
+                                [4095, 4096, 8191, 8192, 16383, 16384])
     if tier != 'quick':
         ks = sorted(set(ks))
     log2_bad = []
@@ -147,7 +149,7 @@ def run_c10(ctx):
     if log2_bad and len(violations) < 5:
         violations.append(dict(what='math.log2 estimate outside [bitlen-1, bitlen]: hypothesis fl2_ok fails here',
                                cases=log2_bad[:5]))
-    for _ in range(3000 if tier == 'quick' else 100000):
+    for _ in range(3000 if tier == 'quick' else 30000):
         bits = rng.choice([8, 16, 31, 32, 33, 63, 64, 65, 127, 128, 255, 256, 1023, 1024, 4096, 8191, 8192])
         check_int(rng.randint(-2 ** bits, 2 ** bits))
     for b0 in range(256):
@@ -170,6 +172,25 @@ def run_c10(ctx):
                     x = F.bytes_to_float(bs)
                     back = F.float_to_bytes(x)
                     isnan = (e == 255 and mt != 0)
+                    # model/FloatCodec.v (Flocq binary32): the VALUE the model decodes is the value Python decodes, and the
+                    # model's re-encoding is the implementation's
+                    mo = m.cmd('FLT ' + bs.hex()).split(' ')
+                    stats['float-model'] += 1
+                    if mo[0] != 'ok':
+                        want = None
+                    else:
+                        kind = mo[1]
+                        if kind.startswith('zero'): want = (x == 0.0 and math.copysign(1.0, x) == (1.0 if kind[4] == '+' else -1.0))
+                        elif kind.startswith('inf'): want = (x == (float('inf') if kind[3] == '+' else float('-inf')))
+                        elif kind.startswith('nan'): want = (x != x)
+                        else:
+                            sg_, mm_, ee_ = kind[3], int(kind.split(':')[1], 16), int(kind.split(':')[2].replace('-', '-0x', 1) if kind.split(':')[2].startswith('-') else '0x' + kind.split(':')[2], 16)
+                            val = fractions.Fraction(mm_) * (fractions.Fraction(2) ** ee_) * (1 if sg_ == '+' else -1)
+                            want = (x == x and x not in (float('inf'), float('-inf')) and fractions.Fraction(x) == val)
+                    if want is not True or (mo[2] != back.hex() and not isnan):
+                        if len(disagreements) < 5:
+                            disagreements.append(dict(stream='float codec: FloatCodec.v vs struct', b=bs.hex(), model=' '.join(mo),
+                                                      impl='%r -> %s' % (x, back.hex())))
                     if back != bs and not (isnan and x != x):
                         if len(violations) < 5:
                             violations.append(dict(what='float encoding does not round-trip', b=bs.hex(), back=back.hex()))
